@@ -17,6 +17,6 @@ Extraction "model.ml"
   dinit dstep cstep is_effective_b d_add d_sub d_eqb chip_at sstep
   lap_entry lap_matrix lap_reduced lap_apply scripted_moves
   is_legal_set_firing legal_b superstable_enum out_degree_S cfg_le cfg_eq cfg_lt is_parking_n is_parking generate_parking parking_count det count_superstables
-  greedy greedy_budget
+  greedy greedy_budget indep_number min_degree is_complete_simple complete_multipartite multipartite_formula_as_implemented
   read_graph read_divisor read_script read_orientation write_graph write_divisor write_script write_orientation name_ok py_int print_Z strip
   oinit oconstruct set_orientation check_fullness o_divisor o_reverse o_get dir_at full_b.
